@@ -391,6 +391,39 @@ func mutantsOf(base string, doc any, rng *PRNG, budget int) []mutant {
 		schemas["ZzzOrder"] = item
 		useIn(paths, "AaaMerged")
 	})
+	// references that the loader resolves but that do not name a component: into the middle of a
+	// schema, into itself, as a oneOf member
+	nest := map[string]any{"type": "object", "properties": map[string]any{"shelter": map[string]any{"type": "object", "properties": map[string]any{"n": map[string]any{"type": "string"}}}}}
+	inject("nested-ref", func(_ map[string]any, schemas, paths map[string]any) {
+		schemas["AaaNest"] = nest
+		schemas["ZzzUser"] = map[string]any{"type": "object", "properties": map[string]any{"s": map[string]any{"$ref": "#/components/schemas/AaaNest/properties/shelter"}}}
+		useIn(paths, "ZzzUser")
+	})
+	inject("nested-ref-into-itself", func(_ map[string]any, schemas, paths map[string]any) {
+		schemas["AaaComment"] = map[string]any{"type": "object", "properties": map[string]any{"author": map[string]any{"type": "object", "properties": map[string]any{
+			"name": map[string]any{"type": "string"}, "invitedBy": map[string]any{"$ref": "#/components/schemas/AaaComment/properties/author"}}}}}
+		useIn(paths, "AaaComment")
+	})
+	inject("nested-ref-oneof-member", func(_ map[string]any, schemas, paths map[string]any) {
+		schemas["AaaNest"] = nest
+		schemas["ZzzOrder"] = item
+		schemas["AaaPick"] = map[string]any{"oneOf": []any{map[string]any{"$ref": "#/components/schemas/AaaNest/properties/shelter"}, map[string]any{"$ref": "#/components/schemas/ZzzOrder"}}}
+		useIn(paths, "AaaPick")
+	})
+	// custom Go types spelled in the forms people write them
+	for i, gt := range []string{"github.com/foo/Bar", "github.com/foo/bar.Baz", "Bar", ".Bar", "foo.", "a/b.c/D", ""} {
+		gt := gt
+		inject(fmt.Sprintf("custom-type-%d", i), func(_ map[string]any, schemas, paths map[string]any) {
+			schemas["AaaCustom"] = map[string]any{"type": "string", "x-goag-go-type": gt}
+			schemas["ZzzHolder"] = map[string]any{"type": "object", "properties": map[string]any{"c": map[string]any{"$ref": "#/components/schemas/AaaCustom"}, "d": map[string]any{"type": "string", "x-goag-go-type": gt}}}
+			useIn(paths, "ZzzHolder")
+		})
+	}
+	// a template that uses one variable name twice
+	inject("repeated-path-variable", func(_ map[string]any, _ map[string]any, paths map[string]any) {
+		paths["/zz/{id}/b/{id}"] = map[string]any{"get": map[string]any{"parameters": []any{map[string]any{"in": "path", "name": "id", "required": true, "schema": map[string]any{"type": "string"}}},
+			"responses": map[string]any{"200": map[string]any{"description": "ok"}}}}
+	})
 	inject("server-variable-no-default", func(root map[string]any, _ map[string]any, _ map[string]any) {
 		root["servers"] = []any{map[string]any{"url": "https://{tenant}.example.com/{base}", "variables": map[string]any{"tenant": map[string]any{"enum": []any{"a", "b"}}, "base": map[string]any{"default": "v1"}}}}
 	})
